@@ -95,6 +95,44 @@ pub fn fix_crcs(x: &mut Vec<u8>) -> bool {
     any
 }
 
+/// the 16-bit checksums an implementation might confuse with CRC-16/X.25: other CCITT / ARC variants, in both byte orders
+pub fn foreign_crcs(data: &[u8]) -> Vec<[u8; 2]> {
+    fn crc(data: &[u8], poly: u16, init: u16, refl: bool, xorout: u16) -> u16 {
+        let mut c = init;
+        for &b in data {
+            if refl {
+                c ^= b as u16;
+                for _ in 0..8 {
+                    c = if c & 1 != 0 { (c >> 1) ^ poly } else { c >> 1 };
+                }
+            } else {
+                c ^= (b as u16) << 8;
+                for _ in 0..8 {
+                    c = if c & 0x8000 != 0 { (c << 1) ^ poly } else { c << 1 };
+                }
+            }
+        }
+        c ^ xorout
+    }
+    let vals = [
+        crc(data, 0x8408, 0xffff, true, 0xffff), // X.25 (the right one; only its swapped order is foreign)
+        crc(data, 0x8408, 0x0000, true, 0x0000), // KERMIT
+        crc(data, 0x8408, 0xffff, true, 0x0000), // MCRF4XX
+        crc(data, 0x1021, 0x0000, false, 0x0000), // XMODEM
+        crc(data, 0x1021, 0xffff, false, 0x0000), // CCITT-FALSE
+        crc(data, 0x1021, 0xffff, false, 0xffff), // GENIBUS
+        crc(data, 0xa001, 0x0000, true, 0x0000), // ARC
+        crc(data, 0xa001, 0xffff, true, 0x0000), // MODBUS
+        data.iter().fold(0u16, |a, b| a.wrapping_add(*b as u16)), // plain sum
+    ];
+    let mut out = vec![];
+    for v in vals {
+        out.push([v as u8, (v >> 8) as u8]);
+        out.push([(v >> 8) as u8, v as u8]);
+    }
+    out
+}
+
 pub fn all_elems(x: &[u8]) -> Vec<Elem> {
     let mut v = vec![];
     let mut i = 0;
@@ -425,7 +463,7 @@ pub fn parser_inputs(tier: &str, rng: &mut Rng, f: &mut dyn FnMut(&[u8], u8)) {
     let mut bases: Vec<Vec<u8>> = corpus_payloads();
     bases.sort_by_key(|b| b.len());
     // generated valid files
-    let ngen = if thorough { 1500 } else { 60 };
+    let ngen = if thorough { 300 } else { 60 };
     for k in 0..ngen {
         let mut g = Gen { rng, nonminimal: k % 2 == 0, in_opt: false };
         let (x, _) = g.file();
@@ -439,7 +477,7 @@ pub fn parser_inputs(tier: &str, rng: &mut Rng, f: &mut dyn FnMut(&[u8], u8)) {
             seen.insert(sig)
         });
     }
-    let nfull = if thorough { 40 } else { 6 };
+    let nfull = if thorough { 12 } else { 6 };
     for (bi, p) in bases.iter().enumerate() {
         f(p, 0);
         let elems = all_elems(p);
@@ -465,7 +503,7 @@ pub fn parser_inputs(tier: &str, rng: &mut Rng, f: &mut dyn FnMut(&[u8], u8)) {
         let full = bi < nfull;
         let light: [u8; 10] = [0, 1, 0x7f, 0x80, 0xff, 0x62, 0x72, 0x77, 0x52, 0x42];
         for i in 0..p.len() {
-            let vals: Vec<u8> = if full || (is_tlf[i] && (thorough || bi % 8 == 0)) {
+            let vals: Vec<u8> = if full || (is_tlf[i] && bi % (if thorough { 3 } else { 8 }) == 0) {
                 (0..=255u8).collect()
             } else {
                 let mut v = light.to_vec();
@@ -484,7 +522,7 @@ pub fn parser_inputs(tier: &str, rng: &mut Rng, f: &mut dyn FnMut(&[u8], u8)) {
                 q[i] = v;
                 let class = if is_tlf[i] { 1 } else { 2 };
                 f(&q, class);
-                if full || thorough || is_tlf[i] || i % 3 == 0 {
+                if full || is_tlf[i] || i % 3 == 0 {
                     let mut q2 = q.clone();
                     if fix_crcs(&mut q2) && q2 != q {
                         f(&q2, class);
@@ -493,7 +531,7 @@ pub fn parser_inputs(tier: &str, rng: &mut Rng, f: &mut dyn FnMut(&[u8], u8)) {
             }
         }
         // element-level structural edits with checksum fix-up: delete / duplicate an element, change a list arity
-        if full || thorough || bi % 4 == 0 {
+        if full || bi % (if thorough { 2 } else { 4 }) == 0 {
             for e in &elems {
                 if e.depth == 0 {
                     continue;
@@ -528,7 +566,7 @@ pub fn parser_inputs(tier: &str, rng: &mut Rng, f: &mut dyn FnMut(&[u8], u8)) {
             }
         }
         // declared-length bombs: replace every TLF by one declaring 2^k-1, 2^k, ... (same type)
-        if full || thorough || bi % 16 == 1 {
+        if full || bi % (if thorough { 5 } else { 16 }) == 1 {
             for e in &elems {
                 if e.ty == 0xff {
                     continue;
@@ -571,6 +609,23 @@ pub fn parser_inputs(tier: &str, rng: &mut Rng, f: &mut dyn FnMut(&[u8], u8)) {
             }
         }
     }
+    // checksums recomputed with the wrong algorithm / byte order (everything but CRC-16/X.25 little-endian must be rejected)
+    for p in bases.iter().take(if thorough { 60 } else { 20 }) {
+        for (i0, c, _) in message_spans(p) {
+            if p[c] != 0x63 || c + 2 >= p.len() {
+                continue;
+            }
+            for v in foreign_crcs(&p[i0..c]) {
+                if v == [p[c + 1], p[c + 2]] {
+                    continue;
+                }
+                let mut q = p.clone();
+                q[c + 1] = v[0];
+                q[c + 2] = v[1];
+                f(&q, 1);
+            }
+        }
+    }
     // crafted lists of minimal entries with correct / wrong declared lengths
     for (x, valid) in crafted_lists() {
         f(&x, if valid { 0 } else { 1 });
@@ -604,7 +659,7 @@ pub fn parser_inputs(tier: &str, rng: &mut Rng, f: &mut dyn FnMut(&[u8], u8)) {
         }
     }
     // random multi-byte mutations
-    let nrand = if thorough { 200000 } else { 20000 };
+    let nrand = if thorough { 80000 } else { 20000 };
     for _ in 0..nrand {
         let p = &bases[rng.below(bases.len())];
         if p.is_empty() {
